@@ -85,10 +85,25 @@ def cases(tier, rng):
             else:
                 seq.append([kind])
         yield "random", ["ops", init, seq]
+        if len(seq) <= 12:
+            yield "alias-random", ["alias", init, seq]
+    for init in initials(2):
+        for o in ops:
+            yield "alias", ["alias", init, [list(o)]]
+        for seq in itertools.product(ops[:6], repeat=2):
+            yield "alias", ["alias", init, [list(o) for o in seq]]
 
 
 def search_cases(tier, rng, mism):
     yield from cases("thorough" if tier == "quick" else tier, rng)
+
+
+def ENCODE(case):
+    # for the model a mapping is a value: mappings built from the same pairs are independent, so the
+    # untouched siblings of an "alias" case are the immutable views of the initial list
+    if case[0] == "alias":
+        return core.enc_line(["imm", case[1]])
+    return core.enc_line(case)
 
 
 PROBE = (0, 1, 2, 3)
@@ -110,50 +125,68 @@ def _getitem(m, k):
         return []
 
 
+def apply_op(m, o):
+    name = o[0]
+    try:
+        if name == "set":
+            m[o[1]] = o[2]
+            r = []
+        elif name == "del":
+            del m[o[1]]
+            r = []
+        elif name == "append":
+            m.append(o[1], o[2])
+            r = []
+        elif name == "setlist":
+            m.setlist(o[1], list(o[2]))
+            r = []
+        elif name == "poplist":
+            r = ["l", list(m.poplist(o[1]))]
+        elif name == "pop":
+            r = ["v", m.pop(o[1])]
+        elif name == "popd":
+            r = ["v", m.pop(o[1], o[2])]
+        elif name == "popitem":
+            k, v = m.popitem()
+            r = ["p", k, v]
+        elif name == "setdefault":
+            r = ["v", m.setdefault(o[1], o[2])]
+        elif name == "update":
+            m.update([tuple(p) for p in o[1]])
+            r = []
+        elif name == "clear":
+            m.clear()
+            r = []
+        else:
+            r = ["badop"]
+    except KeyError:
+        r = ["KeyError"]
+    return r
+
+
 def impl(case):
     from baize.datastructures import MultiMapping, MutableMultiMapping, QueryParams, FormData
     if case[0] == "imm":
         items = [tuple(p) for p in case[1]]
         return [views(MultiMapping(items)), views(QueryParams(items)), views(FormData(items))]
+    if case[0] == "alias":
+        # one list object handed to four mappings; only the mutable one is operated on: the others, and the
+        # caller's list, must stay what they were
+        src = [tuple(p) for p in case[1]]
+        keep = list(src)
+        mm, q, f = MultiMapping(src), QueryParams(src), FormData(src)
+        m = MutableMultiMapping(src)
+        for o in case[2]:
+            apply_op(m, o)
+        out = [views(mm), views(q), views(f)]
+        if src != keep:
+            out.append(["source-list-changed", [list(p) for p in src]])
+        return out
     items = [tuple(p) for p in case[1]]
     m = MutableMultiMapping(items)
     out = [views(m)]
     for o in case[2]:
-        name = o[0]
-        try:
-            if name == "set":
-                m[o[1]] = o[2]
-                r = []
-            elif name == "del":
-                del m[o[1]]
-                r = []
-            elif name == "append":
-                m.append(o[1], o[2])
-                r = []
-            elif name == "setlist":
-                m.setlist(o[1], list(o[2]))
-                r = []
-            elif name == "poplist":
-                r = ["l", list(m.poplist(o[1]))]
-            elif name == "pop":
-                r = ["v", m.pop(o[1])]
-            elif name == "popd":
-                r = ["v", m.pop(o[1], o[2])]
-            elif name == "popitem":
-                k, v = m.popitem()
-                r = ["p", k, v]
-            elif name == "setdefault":
-                r = ["v", m.setdefault(o[1], o[2])]
-            elif name == "update":
-                m.update([tuple(p) for p in o[1]])
-                r = []
-            elif name == "clear":
-                m.clear()
-                r = []
-            else:
-                r = ["badop"]
-        except KeyError:
-            r = ["KeyError"]
+        r = apply_op(m, o)
         out.append([r, views(m)])
     return out
 
@@ -214,6 +247,15 @@ def spec_views(a):
 def oracle(case, obs):
     if obs and obs[0] == "driver-exception":
         return ("raises-" + str(obs[1]), "operation sequence raised %s: %s" % (obs[1], obs[2]))
+    if case[0] == "alias":
+        a = [list(p) for p in case[1]]
+        if len(obs) > 3:
+            return ("caller-list-mutated", "operating on a mapping changed the list it was built from: %r -> %r" % (a, obs[3][1]))
+        for name, v in zip(("MultiMapping", "QueryParams", "FormData"), obs):
+            if v != spec_views(a):
+                return ("sibling-mapping-changed", "%s built from the same list %r shows %r after operations %r on another mapping"
+                        % (name, a, v, case[2]))
+        return None
     if case[0] == "imm":
         a = [list(p) for p in case[1]]
         for name, v in zip(("MultiMapping", "QueryParams", "FormData"), obs):
@@ -235,6 +277,8 @@ def oracle(case, obs):
 
 
 def nontrivial(case, obs):
+    if case[0] == "alias":
+        return len(case[2]) > 0
     if case[0] != "ops":
         return len(case[1]) > 1
     prev = obs[0][0]
@@ -245,13 +289,13 @@ def nontrivial(case, obs):
 
 
 def shrink(case):
-    if case[0] != "ops":
+    if case[0] not in ("ops", "alias"):
         return
     init, ops = case[1], case[2]
     for i in range(len(ops)):
-        yield ["ops", init, ops[:i] + ops[i + 1:]]
+        yield [case[0], init, ops[:i] + ops[i + 1:]]
     for i in range(len(init)):
-        yield ["ops", init[:i] + init[i + 1:], ops]
+        yield [case[0], init[:i] + init[i + 1:], ops]
 
 
 if __name__ == "__main__":
